@@ -231,6 +231,10 @@ def strategy(max_tasks=5):
             for c in plan:
                 if c['cmd'] == 'action_update':
                     c['state'] = D.choice(['PAUSED', 'RUNNING', 'PAUSED'])
+        if D.bool(0.3):
+            # the definition changes between the deliveries of a message
+            plan.append({'at': D.int(0, 25), 'cmd': 'update_defs', 'sel': 0})
+            plan.sort(key=lambda c: c['at'])
         return {'prog': prog, 'outcomes': outc, 'input': {},
                 'sched': enginerun.gen_schedule(D, max_devs=5),
                 'salt': D.int(0, 20), 'dups': dups, 'plan': plan,
